@@ -29,6 +29,7 @@ from . import c15 as k15
 PID = "C16"
 PROOF_FILES = ["theories/Props/C16.v", "theories/Proofs/HydroWrenchProofs.v", "theories/Proofs/HydroBroad.v"]
 TOL = 0.05
+BUILD_TARGETS = ["theories/Props/C16.vo", "theories/Model/HydroRun.vo", "theories/Checker/Poly.vo"]
 
 MODEL_HEADER = """From Coq Require Import List ZArith PrimFloat.
 From D3 Require Import Base.Ops Base.Vec Model.AabbTree Model.Hydro Model.HydroWrench Model.HydroRun.
@@ -121,23 +122,97 @@ def run_workers(cases, tag, per=1, timeout=2400):
 WORKER_NOTES = []
 
 
-def lost_vertex_contact(c):
-    """input-class predicate of the lost-vertex defect (known finding F26 of C15) at body level: some contact
-    reported by find_contact_surface, in either order of the bodies, has an area different from the exact
-    rational intersection polygon AND that polygon has a vertex on >= 3 face planes (hydrogen.concurrent_lines).
-    Evaluated only when a 5 % comparison failed."""
-    cases = [dict(kind="bodies", cls="f26_probe", b1=c["b1"], b2=c["b2"], use_aabb_trees=False, all_pairs=False, max_contacts=10 ** 6),
-             dict(kind="bodies", cls="f26_probe", b1=c["b2"], b2=c["b1"], use_aabb_trees=False, all_pairs=False, max_contacts=10 ** 6)]
-    res, _ = hg.run_cases(cm, PID, "c15", cases, "f26probe", per=1, timeout=2400)
-    for r in res:
-        if r is None or "exc" in r:
+def cross3(a, b):
+    return [a[1] * b[2] - a[2] * b[1], a[2] * b[0] - a[0] * b[2], a[0] * b[1] - a[1] * b[0]]
+
+
+def run_wrench_AB(run, order, g, exclude):
+    """world-frame (force on A, torque on A about its centre of mass, force on B, torque on B) of one run from its contacts,
+    leaving out the tetrahedron pairs in `exclude` (keys (index in A, index in B)); a common motion g is undone."""
+    T = run["frame2world"]
+    F1, T1, T2 = [0.0] * 3, [0.0] * 3, [0.0] * 3
+    for ct in run["contacts"]:
+        key = (ct["i"], ct["j"]) if order == "12" else (ct["j"], ct["i"])
+        if key in exclude:
             continue
-        for ct in r["contacts"]:
-            L = k15.scale_of(ct["t1"], ct["t2"])
-            ex = hg.exact_area(hg.exact_polygon(ct["t1"], ct["t2"], ct["plane"]), ct["plane"])
-            if abs(ex - ct["area"]) > 1e-9 * L * L and hg.concurrent_lines(ct["t1"], ct["t2"], ct["plane"]):
-                return True
-    return False
+        f = ct["force"]
+        F1 = [F1[k] + f[k] for k in range(3)]
+        t1 = cross3(sub(ct["com"], run["com1"]), f)
+        t2 = cross3(sub(ct["com"], run["com2"]), [-x for x in f])
+        T1 = [T1[k] + t1[k] for k in range(3)]
+        T2 = [T2[k] + t2[k] for k in range(3)]
+    w = [rot_apply(T, F1), rot_apply(T, T1), rot_apply(T, [-x for x in F1]), rot_apply(T, T2)]
+    if g is not None:
+        Rt = [[g[j][i] for j in range(3)] for i in range(3)]
+        w = [rot_apply(Rt, v) for v in w]
+    return w if order == "12" else [w[2], w[3], w[0], w[1]]
+
+
+RUNS = {   # comparison group -> (run A, run B) as (pair of body indices in specs, pre-calls, moved by g?)
+    "swap": (((0, 1), [], False), ((1, 0), [], False)),
+    "common motion": (((0, 1), [], False), ((0, 1), [], True)),
+    "repeat 1": (((0, 1), [], False), ((0, 1), [[0, 1]], False)),
+    "repeat 2": (((0, 1), [], False), ((0, 1), [[0, 1], [0, 1]], False)),
+    "after an interleaved call against a third body": (((0, 1), [], False), ((0, 1), [[0, 1], [0, 1], [0, 1], [0, 2]], False)),
+    "call against the third body vs fresh bodies": (((0, 2), [], False), ((0, 2), [[0, 1], [0, 1], [0, 1]], False)),
+}
+
+
+def explained(R, c, group, fm, tq):
+    """Does a known finding EXPLAIN the failed comparison of `group`?  Both runs are repeated with per-contact output; the
+    tetrahedron pairs of the finding's input class are determined per pair -
+      F17: |raw plane normal| / (|E1 grad p1| + |E2 grad p2|) < 1e-9 in either run (rounding-noise plane),
+      lost vertex (F26): hydrogen.concurrent_lines AND (area != exact rational area in either run, or the pair is reported
+      by one run only) -
+    and left out of BOTH sums.  Only if the remaining wrenches agree within 5 % the finding explains the failure.
+    Returns the id of the explaining known finding or None."""
+    if group not in RUNS:
+        group = "swap"
+    f17 = [k for k in R.known if k.get("id") == "F17"]
+    lostk = [k for k in R.known if "concurrent_lines" in k.get("match", "")]
+    if not f17 and not lostk:
+        return None
+    specs = [c["b1"], c["b2"]] + ([c["b3"]] if c.get("b3") is not None else [])
+    (pa, prea, ga), (pb, preb, gb) = RUNS[group]
+    if max(pa + pb) >= len(specs):
+        return None
+    cases = [dict(kind="contacts", specs=specs, pair=list(pa), pre=prea, g=c["g"] if ga else None),
+             dict(kind="contacts", specs=specs, pair=list(pb), pre=preb, g=c["g"] if gb else None)]
+    res, _ = hg.run_cases(cm, PID, "c16", cases, "explain", per=1, timeout=2400)
+    if any(x is None or "exc" in x for x in res):
+        return None
+    A, B = res
+    oa = "12"
+    ob = "21" if (pb[0], pb[1]) == (pa[1], pa[0]) else "12"
+
+    def keyed(run, order):
+        return {((ct["i"], ct["j"]) if order == "12" else (ct["j"], ct["i"])): ct for ct in run["contacts"]}
+    ka, kb = keyed(A, oa), keyed(B, ob)
+    noise = {k for k, ct in list(ka.items()) + list(kb.items()) if ct["ratio"] < 1e-9}
+    lost = set()
+    if lostk:
+        for k in set(ka) | set(kb):
+            ct = ka.get(k) or kb.get(k)
+            bad = (k not in ka) or (k not in kb)
+            for x in (ka.get(k), kb.get(k)):
+                if x is not None and not bad:
+                    Lc = k15.scale_of(x["t1"], x["t2"])
+                    if abs(hg.exact_area(hg.exact_polygon(x["t1"], x["t2"], x["plane"]), x["plane"]) - x["area"]) > 1e-9 * Lc * Lc:
+                        bad = True
+            if bad and hg.concurrent_lines(ct["t1"], ct["t2"], ct["plane"]):
+                lost.add(k)
+
+    def agree(excl):
+        wa = run_wrench_AB(A, oa, c["g"] if ga else None, excl)
+        wb = run_wrench_AB(B, ob, c["g"] if gb else None, excl)
+        return max(dev(wa[0], wb[0]) / fm, dev(wa[2], wb[2]) / fm, dev(wa[1], wb[1]) / tq, dev(wa[3], wb[3]) / tq) <= TOL
+    if agree(set()):
+        return None          # the re-run does not even show the failure: nothing to attribute
+    if f17 and noise and agree(noise):
+        return "F17"
+    if lostk and lost and agree(noise | lost):
+        return lostk[0]["id"] if not (noise and f17) or agree(lost) else "F17"
+    return None
 
 
 def judge(R, c, r, stats):
@@ -171,19 +246,18 @@ def judge(R, c, r, stats):
     noise_plane = bool(ratios) and min(ratios) < 1e-9
     has_f17 = any(k.get("id") == "F17" for k in R.known)
 
-    def fail(what):
-        lost = [k for k in R.known if "concurrent_lines" in k.get("match", "")]
-        if noise_plane and has_f17:
-            kf = [k for k in R.known if k.get("id") == "F17"][0]
-            stats["f17_inputs"] += 1
-            R.known_finding("F17", kf.get("what", what)[:300])
-        elif lost and lost_vertex_contact(c):
-            # only if the lead records the lost-vertex defect (F26 of C15) for C16 as well
-            stats["lost_vertex_inputs"] = stats.get("lost_vertex_inputs", 0) + 1
-            R.known_finding(lost[0]["id"], lost[0].get("what", what)[:300])
+    def fail(what, group="swap"):
+        # a known finding is credited only if leaving out the tetrahedron pairs of ITS input class from both runs
+        # brings the comparison back under 5 % (explained()); the scene-wide indicators are not sufficient
+        kid = explained(R, c, group, fm, fm * Ls)
+        if kid is not None:
+            stats["f17_inputs" if kid == "F17" else "lost_vertex_inputs"] = stats.get("f17_inputs" if kid == "F17" else "lost_vertex_inputs", 0) + 1
+            kf = [k for k in R.known if k.get("id") == kid][0]
+            R.known_finding(kid, kf.get("what", what)[:300])
         else:
-            R.failure(what + f" (force magnitude {fm:.6g}, worst plane conditioning {min(ratios) if ratios else None})", c,
-                      site="contact_forces")
+            R.failure(what + f" (force magnitude {fm:.6g}, worst plane conditioning {min(ratios) if ratios else None}; no known "
+                             f"finding explains it: leaving out the rounding-noise planes / lost-vertex contacts does not restore agreement)",
+                      c, site="contact_forces")
 
     flags = dict(base=base["inter"], swap=sw["inter"], moved=mv["inter"], repeat1=r["repeat1"]["inter"], repeat2=r["repeat2"]["inter"],
                  internals=r["internals"]["inter"])
@@ -193,7 +267,10 @@ def judge(R, c, r, stats):
         # a grazing contact of negligible force may appear / disappear; anything else is a failure
         if fm > 0 and any(norm(x["w12"][:3]) > 1e-9 * max(1.0, fm) for x in (base, sw, mv)) and \
                 max(norm(x["w12"][:3]) for x in (base, sw, mv)) > 1e-6 * max(r["internals"].get("force_abs_sum", 0.0), 1e-300):
-            fail(f"intersection flag changes: {flags}")
+            grp = ("swap" if flags["swap"] != flags["base"] else "common motion" if flags["moved"] != flags["base"] else
+                   "repeat 1" if flags["repeat1"] != flags["base"] else "repeat 2" if flags["repeat2"] != flags["base"] else
+                   "after an interleaved call against a third body")
+            fail(f"intersection flag changes: {flags}", grp)
         else:
             stats["grazing_flag_changes"] += 1
     if fm == 0.0:
@@ -232,7 +309,7 @@ def judge(R, c, r, stats):
         grp = name.split(":")[0]
         stats["worst"][grp] = max(stats["worst"].get(grp, 0.0), val if not (noise_plane) else 0.0)
         if val > TOL:
-            fail(f"{name}: relative deviation {val:.4g} > 5 %")
+            fail(f"{name}: relative deviation {val:.4g} > 5 %", grp)
             break
     return True
 
@@ -340,7 +417,7 @@ def run(tier, seed, replay=None):
         "harness/compat.py import shim; numpy/numba/OpenBLAS/CPython",
     ]
     R.check_proofs([f for f in PROOF_FILES if (cm.COQ / f).exists()],
-                   build_targets=["theories/Props/C16.vo", "theories/Model/HydroRun.vo", "theories/Checker/Poly.vo"])
+                   build_targets=BUILD_TARGETS)
     cases = []
     if replay:
         cases.append(json.loads(open(replay).read())["case"])
@@ -446,7 +523,7 @@ def run(tier, seed, replay=None):
                 cert_idx.append((i, ct))
     if cert_exprs:
         try:
-            vs = hg.coq_eval(cm, PID, k15.CERT_HEADER, cert_exprs, "cert", max(8, len(cert_exprs) // (2 * cm.NCPU) + 1), 1500)
+            vs = hg.coq_eval(cm, PID, k15.CERT_HEADER, cert_exprs, "cert", max(8, len(cert_exprs) // (2 * cm.NCPU) + 1), 1500, BUILD_TARGETS)
             stats["details_certificates"] = len(vs)
             for (i, ct), v in zip(cert_idx, vs):
                 bits = hg.parse_coq_value(v)
@@ -470,7 +547,7 @@ def run(tier, seed, replay=None):
             exprs.append(f"run_express {fpose(ex['old'])} {fpose(ex['new'])} {flist(ex['before'], fv)}")
             idx.append((i, "express"))
     try:
-        outs = hg.coq_eval(cm, PID, MODEL_HEADER, exprs, "model", max(4, len(exprs) // (2 * cm.NCPU) + 1), 1500)
+        outs = hg.coq_eval(cm, PID, MODEL_HEADER, exprs, "model", max(4, len(exprs) // (2 * cm.NCPU) + 1), 1500, BUILD_TARGETS)
         for (i, kind), txt in zip(idx, outs):
             c, r = cases[i], res[i]
             m = hg.parse_coq_value(txt)
